@@ -2,6 +2,7 @@ package server
 
 import (
 	"context"
+	"errors"
 	"net"
 	"sync"
 	"time"
@@ -165,6 +166,25 @@ type sourceAdmitter interface {
 	AdmitsSource(addr net.Addr) bool
 }
 
+// expiredRejecter is what the owned transports offer for a query that was
+// admitted and queued and whose budget ran out before it was served: a
+// header-only SERVFAIL written in place. "Expired resolution surfaces as
+// SERVFAIL to that client" also when the time was spent in the queue.
+type expiredRejecter interface {
+	rejectExpired()
+}
+
+// answerExpired writes that reply when err is the query's own deadline. A
+// cancelled parent means the client is gone and nothing is written.
+func answerExpired(w middleware.Transport, err error) {
+	if !errors.Is(err, context.DeadlineExceeded) {
+		return
+	}
+	if r, ok := w.(expiredRejecter); ok {
+		r.rejectExpired()
+	}
+}
+
 // inlineRawHandler is the optional fast-path contract: a handler that can
 // run a query on the transport reader without blocking, handing off what
 // needs a worker. Engines type-assert it once at construction and consult
@@ -250,7 +270,11 @@ func (s *Server) ServeRawInline(w middleware.Transport, raw []byte, readTime tim
 				s.served.Add(1)
 			}
 			carrier.reset(readTime.Add(s.queryTimeout()))
-			if s.pipeline == nil || contextutil.EffectiveError(carrier) != nil {
+			if s.pipeline == nil {
+				return true
+			}
+			if err := contextutil.EffectiveError(carrier); err != nil {
+				answerExpired(w, err)
 				return true
 			}
 			s.pipeline.BindChain(chain)
@@ -283,7 +307,8 @@ func (s *Server) ServeRawReplay(w middleware.Transport, raw []byte, readTime tim
 			if s.pipeline == nil {
 				return true
 			}
-			if contextutil.EffectiveError(carrier) != nil {
+			if err := contextutil.EffectiveError(carrier); err != nil {
+				answerExpired(w, err)
 				return true
 			}
 			s.pipeline.BindChain(chain)
@@ -323,7 +348,8 @@ func (s *Server) serveWire(
 	if s.pipeline == nil {
 		return
 	}
-	if contextutil.EffectiveError(ctx) != nil {
+	if err := contextutil.EffectiveError(ctx); err != nil {
+		answerExpired(w, err)
 		return
 	}
 	// The chain is the transport's own storage; binding restates the
